@@ -47,6 +47,38 @@ def planted(rng, n):
     return out
 
 
+def symmetric(rng, n):
+    """coalitions whose members reach the quota *together with equal tallies* (tied winners of one simultaneous round), each with a
+    surplus the coalition needs: S = {s1..sk}, every member first on the same weight w > threshold, tails inside S, outsiders share the rest"""
+    out = []
+    for _ in range(n):
+        nc = rng.randint(3, 5)
+        cands = D.ABC[:nc]
+        k = rng.randint(2, min(3, nc - 1))
+        S = rng.sample(cands, k)
+        others = [c for c in cands if c not in S]
+        heads = rng.randint(2, k) if k > 2 else 2          # how many members are ranked first by somebody
+        m = rng.randint(heads, min(nc - 1, k + 1)) if heads <= min(nc - 1, k + 1) else heads
+        w = rng.randint(3, 15)
+        ballots = []
+        for h in S[:heads]:
+            rest = [c for c in S if c != h]
+            rng.shuffle(rest)
+            tail = rng.sample(others, rng.randint(0, len(others)))
+            ballots.append({"r": [[c] for c in [h] + rest + tail], "w": [w, 1]})
+        left = rng.randint(1, w)
+        for o in rng.sample(others, rng.randint(1, len(others))):
+            if left <= 0:
+                break
+            x = rng.randint(1, left)
+            ballots.append({"r": [[o]] + ([[rng.choice(S)]] if rng.random() < 0.3 else []), "w": [x, 1]})
+            left -= x
+        cfg = base_cfg(rule="STV", m=min(m, nc), simul=rng.random() < 0.8, xfer=rng.choice(["fractional", "fractional", "random"]),
+                       tb=rng.choice(["random", "borda"]))
+        out.append({"cfg": cfg, "cands": cands, "ballots": ballots, "mode": "explore", "max_paths": 40, "seed": rng.randrange(10**6)})
+    return out
+
+
 def corpus(tier, seed):
     rng = random.Random(700 + seed)
     cands = ["A", "B", "C"]
@@ -56,7 +88,8 @@ def corpus(tier, seed):
     inputs = EL.inputs_exhaustive(rng, cands, rk, 2, D.INT_W(3), cfgs, per_bag=6 if q else None)
     if not q:
         inputs += EL.inputs_exhaustive(rng, cands, rk, 3, D.INT_W(2), cfgs, per_bag=6)
-    inputs += planted(rng, 600 if q else 8000)
+    inputs += planted(rng, 500 if q else 8000)
+    inputs += symmetric(rng, 400 if q else 6000)
     return EL.add_slow_slice(rng, inputs, 100 if q else 1000)
 
 
